@@ -26,6 +26,13 @@ const (
 	MaxFaults = 1 << 12
 	MaxGC     = 16
 	Inf       = int64(1) << 60
+
+	// reserved yield sites inside zzsimsync: right after a primitive was
+	// released / right before one is acquired (class "sync" of the site-biased
+	// scheduler: the gaps between critical sections are where check-then-act
+	// sequences break)
+	SiteSyncRel = MaxSites - 1
+	SiteSyncAcq = MaxSites - 2
 )
 
 // scheduler modes (only used when generating; a replay follows the tape)
